@@ -262,6 +262,37 @@ def gen_ops(rng, n_models: int, n_ops: int) -> list[list]:
     return ops
 
 
+PIECES = [' ', '\t', '\n', '\r\n', '\n', '\n']
+SHORT = ['\n\n', '\n', ' ', '', '\n  ', '\r\n', '\t', '\n\n']
+
+
+def gen_grow_shrink(rng, n_models: int) -> list[list]:
+    """Grow a spacing run to k in 4..40 tokens, then shrink it: on the first / second model of the file and on
+    random ones, both sides, once to three times per document."""
+    ops = []
+    for _ in range(rng.randrange(1, 4)):
+        m = rng.choice([0, 0, 1, 1, 2, rng.randrange(n_models), rng.randrange(n_models), n_models - 1])
+        side = rng.choice(['before', 'before', 'after'])
+        k = rng.randrange(4, 41)
+        if rng.random() < 0.4:
+            long = '\n' * k
+        else:
+            long, prev_blank = '', False
+            for _ in range(k):
+                pc = rng.choice(PIECES)
+                if prev_blank and pc in (' ', '\t'):
+                    pc = '\n'            # keep it k tokens: adjacent blanks would merge into one Whitespace
+                prev_blank = pc in (' ', '\t')
+                long += pc
+        ops.append([m, side, 'str', long])
+        if rng.random() < 0.3:
+            ops.append([m, rng.choice(['before', 'after']), 'str', rng.choice(SHORT + ['\n' * rng.randrange(3, 12)])])
+        ops.append([m, side, 'str', rng.choice(SHORT)])
+        if rng.random() < 0.3:
+            ops.append([rng.randrange(n_models), rng.choice(['before', 'after']), 'str', gen_spacing(rng, False)])
+    return ops
+
+
 class DocRun:
     """Runs getters and a history of spacing assignments on one parsed ledger; collects the Coq cases
     and evaluates the monitors (the statements of C17 on the implementation)."""
@@ -428,12 +459,15 @@ class DocRun:
                           f'{type(e).__name__}: {e}' + (f' [load factor {self.lf}]' if self.lf else ''), k)
                 break
             self.stats['sets'] += 1
-            self.stats['max_run'] = max(self.stats.get('max_run', 0), len(raw_b), len(raw_a))
+            self.max_run = max(getattr(self, 'max_run', 0), len(raw_b), len(raw_a))
             self.cases.append(
                 f'mkcase {coq_toks(toks)} {i} {j} {coq_toks(raw_b)} {coq_toks(raw_a)} {op} '
                 f'{coq_toks(toks2)} {idx2[id(m.first_token)]} {common.coq_str(readback)}')
             # ---- monitors: the statement on the printed text
             text_a = ''.join(s for _, s in toks2)
+            if len(self.store) != len(toks2):
+                self.fail('C17:set-frame', f'after {type(m).__name__}.spacing_{side} = {payload!r} the store reports '
+                          f'{len(self.store)} tokens but holds {len(toks2)}', k)
             if [id(t) for t in self.store if kind_of(t) == 2] != other_ids:
                 self.fail('C17:set-frame', 'a token that is not Newline/Whitespace was added, removed or moved', k)
             if kind == 'str' and in_language(payload):
@@ -490,8 +524,16 @@ def run_all(ctx: common.Ctx):
             continue
         parsed += 1
         n_models = len(walk(f)) - 1
-        ops = gen_ops(ctx.rng, max(n_models, 1), n_ops)
-        run = DocRun(text, ops, 4, ctx.rng).run()
+        if d % 3 == 2:
+            # long runs across store blocks: explicit small load factor, grow then shrink
+            lf = ctx.rng.choice([2, 3, 4])
+            ops = gen_grow_shrink(ctx.rng, max(n_models, 1))
+            run = DocRun(text, ops, 1, ctx.rng, lf=lf).run()
+            ctx.dist(f'grow-shrink/lf={lf}')
+            ctx.dist(f'grow-shrink/max_run={min(getattr(run, "max_run", 0) // 10 * 10, 40)}+')
+        else:
+            ops = gen_ops(ctx.rng, max(n_models, 1), n_ops)
+            run = DocRun(text, ops, 4, ctx.rng).run()
         for f_ in run.fails:
             if f_['sig'].startswith('C17'):
                 ctx.monitor_failure(f_['sig'], f_['what'], f_['witness'])
@@ -510,7 +552,7 @@ def run_all(ctx: common.Ctx):
                 ctx.dist('string=' + ('empty' if not o[3] else 'in-language' if in_language(o[3]) else 'outside'))
         for c in run.cases:
             cases.append(c)
-            metas.append((text, ops))
+            metas.append((text, ops, run.lf))
         layouts.append(run.layout_case)
         lay_meta.append(text)
     # a model without a store (a free token): getters give nothing, setters refuse
@@ -532,10 +574,10 @@ def run_all(ctx: common.Ctx):
     bad = ctx.run_coq_cases('spacing', PREAMBLE, 'scase', 'check_case', cases, chunk=60)
     ctx.count('traces_validated_against_impl', len(cases) - len(bad))
     for i in bad[:3]:
-        text, ops = metas[i]
+        text, ops, lf = metas[i]
         ctx.fail('corr', 'spacing-correspondence',
                  'Spacing.v and spacing_accessors.py disagree (getter result, store after an assignment, or read-back)',
-                 {'text': text, 'ops': ops, 'case': cases[i][:1500]})
+                 {'text': text, 'ops': ops, 'lf': lf, 'case': cases[i][:1500]})
     # correspondence: _text_to_tokens and the recogniser of the quantifier's language
     t2t = t2t_cases(ctx.rng, ctx.scale(150, 1500))
     t_cases = [f'({common.coq_str(s)}, {coq_toks(ts)}, {common.coq_bool(b)})' for s, ts, b in t2t]
@@ -560,7 +602,9 @@ def run(ctx: common.Ctx):
     ctx.rule = ('generated ledgers (12 directive kinds, postings, meta, block/inline comments, tabs and mixed indents, '
                 'LF/CRLF/mixed, missing final newline) parsed with the real Parser; per ledger every model (tree and '
                 'token) is read from both sides and a seeded history of spacing assignments (strings incl. "", "\\n", '
-                '" \\t", "\\r\\n\\n  ", strings outside the language, raw token lists) is applied; a case is '
+                '" \\t", "\\r\\n\\n  ", strings outside the language, raw token lists) is applied; every third ledger instead '
+                'runs grow-then-shrink scenarios (a run of 4..40 spacing tokens, then collapsed) on the first models of the '
+                'file and on random ones under load factor 2..4, so the assignments are multi-block splices; a case is '
                 'non-trivial when at least one assignment ran; distinct by (size, newline kind, tabs, ops)')
     ctx.assumptions += ['token identity is position in the store list (TokenStore = plain list: C07)',
                         'the Parser is an oracle: its token lists are inputs; spacing tokens hold only blanks (checked on each); '
@@ -582,7 +626,7 @@ def replay(ctx, path):
     f = data.get('failure') or (data.get('what_no_longer_checks') or [{}])[0]
     w = f.get('witness') or {}
     if 'text' in w:
-        run = DocRun(w['text'], w.get('ops', []), 1000).run()
+        run = DocRun(w['text'], w.get('ops', []), 1000, lf=w.get('lf')).run()
         for x in run.fails:
             print('monitor:', x['sig'], x['what'])
         bad = ctx.run_coq_cases('replay', PREAMBLE, 'scase', 'check_case', run.cases, chunk=30)
